@@ -301,9 +301,27 @@ impl<'buf> ModuleReader<'buf> {
             (None, _, _) | (_, None, _) => Err(Error::NoDynStrSection),
             (_, _, None) => Err(Error::NoSoNameEntry),
             (Some(addr), Some(size), Some(offset)) => {
-                // If loaded in memory, the address will be altered to be absolute.
                 if offset < size {
-                    self.read_name_from_strtab(self.module_memory.absolute(addr), size, offset)
+                    let strtab_offset = if self.module_memory.is_process_memory() {
+                        // If loaded in memory, the address will be altered to be absolute.
+                        self.module_memory.absolute(addr)
+                    } else {
+                        // In a file, DT_STRTAB is a virtual address: translate it to a file offset
+                        // through the load segment that contains it.
+                        program_headers
+                            .iter()
+                            .filter(|h| h.p_type == elf::program_header::PT_LOAD)
+                            .find_map(|h| {
+                                let delta = addr.checked_sub(h.p_vaddr)?;
+                                if delta < h.p_filesz {
+                                    h.p_offset.checked_add(delta)
+                                } else {
+                                    None
+                                }
+                            })
+                            .unwrap_or(addr)
+                    };
+                    self.read_name_from_strtab(strtab_offset, size, offset)
                 } else {
                     log::warn!("soname strtab offset ({offset}) exceeds strtab size ({size})");
                     Err(Error::NoSoNameEntry)
